@@ -214,7 +214,8 @@ class Translator:
     """
 
     def __init__(self, key: Callable[[ast.AST], str], atomize=None, numeric: set[str] | None = None,
-                 expand=None):
+                 expand=None, canon=None):
+        self.canon = canon  # optional: expression -> alias-expanded expression
         self.key = key
         self.atomize = atomize
         self.numeric = numeric or set()
@@ -244,6 +245,9 @@ class Translator:
             return And(*parts) if isinstance(e.op, ast.And) else Or(*parts)
         if isinstance(e, ast.UnaryOp) and isinstance(e.op, ast.Not):
             return Not(self.f(e.operand))
+        if isinstance(e, ast.IfExp):
+            c = self.f(e.test)
+            return Or(And(c, self.f(e.body)), And(Not(c), self.f(e.orelse)))
         if isinstance(e, ast.Constant) and isinstance(e.value, bool):
             return ("const", e.value)
         if isinstance(e, ast.Constant) and e.value is None:
@@ -271,6 +275,12 @@ class Translator:
             pos = isinstance(op, ast.Is)
             for x, y in ((a, b), (b, a)):
                 if isinstance(y, ast.Constant) and y.value is None:
+                    cx = self.canon(x) if self.canon is not None else x
+                    if isinstance(cx, ast.Call) and isinstance(cx.func, ast.Attribute) and cx.func.attr == "get" \
+                            and len(cx.args) == 1 and not cx.keywords:
+                        # D.get(k) is None  <=>  k not in D   (dictionaries of this package never store None as an index)
+                        at = B(f"in:{self.key(cx.args[0])}|{self.key(cx.func.value)}")
+                        return Not(at) if pos else at
                     at = B("none:" + self.key(x))
                     return at if pos else Not(at)
             at = B(f"is:{self.key(a)}|{self.key(b)}")
